@@ -279,7 +279,7 @@ func init() {
 				nw.b.Setup("oldcall", func() { nb1.Send(nw.b.pids["CALLER"], "go") })
 				// B goes away and comes back under the same name with a later creation stamp
 				nw.a.Setup("cut", func() { nw.links[0].ca.Close() })
-				vsched.Quiet(func() { nb1.StopForce() })
+				dropNode(nb1)
 				ex.Now += 5e9
 				nb2 := startNetNode("b@localhost", netOpts{})
 				if nb2.creation == nb1.creation {
@@ -345,8 +345,8 @@ func init() {
 				}
 				out := fmt.Sprintf("errs=%v new=%v/%v", errs, newRes, newErr)
 				ex.Release()
-				vsched.Quiet(func() { na.StopForce() })
-				vsched.Quiet(func() { nb2.StopForce() })
+				dropNode(na)
+				dropNode(nb2)
 				return out
 			}})
 		}})
